@@ -74,13 +74,14 @@ StartsR(ds, k, cur, acc) ==
   IF k > Len(ds) THEN acc ELSE StartsR(ds, k + 1, Add(cur, ds[k].delta), Append(acc, cur))
 Starts(ds) == StartsR(ds, 1, <<>>, <<>>)
 
-\* offset of every sample inside its chunk (sum of sizes of earlier samples of that chunk)
+\* offset of every sample inside its chunk (sum of sizes of earlier samples of that chunk), as Bigs:
+\* a chunk may hold more than 2^31 bytes
 RECURSIVE IntraR(_, _, _, _, _)
 IntraR(t, ch, k, cur, acc) ==
   IF k > Len(ch) THEN acc
-  ELSE LET c0 == IF k > 1 /\ ch[k - 1] = ch[k] THEN cur ELSE 0
-       IN IntraR(t, ch, k + 1, c0 + SizeOf(t, k), Append(acc, c0))
-Intra(t, ch) == IntraR(t, ch, 1, 0, <<>>)
+  ELSE LET c0 == IF k > 1 /\ ch[k - 1] = ch[k] THEN cur ELSE <<>>
+       IN IntraR(t, ch, k + 1, Add(c0, FromInt(SizeOf(t, k))), Append(acc, c0))
+Intra(t, ch) == IntraR(t, ch, 1, <<>>, <<>>)
 
 -----------------------------------------------------------------------------
 (* mutual consistency of the table set (the C02 per-track clause, and the  *)
@@ -127,7 +128,7 @@ Sem(t) ==
       cs   == IF t.ctts.some THEN Expand(t.ctts.entries) ELSE <<>>
       syn  == IF t.stss.some THEN {t.stss.entries[i] : i \in 1..Len(t.stss.entries)} ELSE {}
   IN [k \in 1..n |->
-        [ off   |-> Add(t.co.entries[ch[k]], FromInt(intr[k])),
+        [ off   |-> Add(t.co.entries[ch[k]], intr[k]),
           size  |-> SizeOf(t, k),
           start |-> st[k],
           dur   |-> ds[k].delta,
@@ -149,4 +150,8 @@ MediaDuration(t) == MediaDur2R(t.stts, 1, <<>>)
 ChunkLens(t) ==
   LET spc == SpcSeq(t)  fs == FirstSeq(spc) IN
   [c \in 1..Len(spc) |-> IntSum([j \in 1..spc[c] |-> SizeOf(t, fs[c] + j - 1)])]
+\* the same as Bigs (chunks of 2 GiB and more)
+ChunkLensBig(t) ==
+  LET spc == SpcSeq(t)  fs == FirstSeq(spc) IN
+  [c \in 1..Len(spc) |-> Sum([j \in 1..spc[c] |-> FromInt(SizeOf(t, fs[c] + j - 1))])]
 =============================================================================
